@@ -59,6 +59,36 @@ pub fn dispatch(kind: &str, a: &[&str]) -> Option<String> {
             drain(&mut rd, &mut out, d.len() + 2);
             out.join(" ")
         }
+        // tr.slicepos <hex>: slice reader, every token with position() after it (C09: where token
+        // counting lands), then the terminal event with the final position
+        ("tr.slicepos", [h]) => {
+            let d = unhex(h);
+            let mut rd = TokenReader::from_slice(&d);
+            let mut out: Vec<String> = Vec::new();
+            let mut n = 0;
+            loop {
+                if n > d.len() + 2 {
+                    out.push("RUNAWAY".into());
+                    break;
+                }
+                n += 1;
+                match rd.next() {
+                    Ok(Some(t)) => {
+                        let s = show_tok(&t);
+                        out.push(format!("{}@{}", s, rd.position()))
+                    }
+                    Ok(None) => {
+                        out.push(format!("END@{}", rd.position()));
+                        break;
+                    }
+                    Err(e) => {
+                        out.push(format!("{}@{}", err_class(&e), rd.position()));
+                        break;
+                    }
+                }
+            }
+            out.join(" ")
+        }
         // tr.subslice <hex> <n>: a slice reader over the first n bytes of a larger allocation (what lies
         // behind the window is real memory: an off-by-one read is not caught by the allocator)
         ("tr.subslice", [h, n]) => {
